@@ -25,10 +25,22 @@ def _count(nodes):
     return n
 
 
+DURING = @@DURING@@      # serialise the whole document (to_text and str) after every construction step and discard the result
+_top = [None]
+
+
+def _poke():
+    """'serialised any number of times', also in between construction steps: must not influence later serialisations"""
+    if DURING and _top[0] is not None:
+        _top[0].to_text()
+        str(_top[0])
+
+
 def build(w, nodes, depth, pc, ch1):
     """executes the script on the real writer `w`; returns the specification text of the same nodes"""
     out = ""
     for nd in nodes:
+        _poke()
         k = nd[0]
         if k == "text":
             lines = [(pc.take(L) + FILL) for _ in range(nd[1])]
@@ -56,6 +68,7 @@ def build(w, nodes, depth, pc, ch1):
                     d.option(a, b)
             inner = build(d, nd[3], depth + 1, pc, ch1)
             if nd[2]:
+                _poke()
                 for (a, b) in opts:
                     d.option(a, b)
             out = out + spec.directive(depth, name, arg, opts, [inner] if len(nd[3]) > 0 else [])
@@ -77,6 +90,7 @@ def check(cps: $$CPS$$, title: $$TT$$, title2: $$TT$$, hdr: Tuple[int, int]) -> 
     settings.rst.headers = [ch0, ch1]
     t1 = hc.S(title); t2 = hc.S(title2)
     w = RSTWriter(t1, settings=settings)
+    _top[0] = w
     pc = hc.Pieces(cps)
     body = build(w, SCRIPT, 0, pc, ch1)
     n0 = len(w.document)
@@ -87,9 +101,14 @@ def check(cps: $$CPS$$, title: $$TT$$, title2: $$TT$$, hdr: Tuple[int, int]) -> 
     if ok:
         w.title = t2                   # re-framed when the title is changed; the rest of the document is untouched
         ok = w.to_text() == spec.heading(t2, ch0) + body and w.title == t2
+    if ok and len(SCRIPT) > 0 and len(w.document) > 1:
+        # replace the last top-level element by a paragraph (same element count), serialise through str() and to_text()
+        del w.document[-1]
+        w.text(t1)
+        ok = str(w) == w.to_text()
     if ok:
         w.clear()
-        ok = w.to_text() == spec.heading(t2, ch0)
+        ok = w.to_text() == spec.heading(t2, ch0) and str(w) == spec.heading(t2, ch0)
         w.title = t1
         ok = ok and w.to_text() == spec.heading(t1, ch0)
     return hc.report(ok, cps=cps, title=title, title2=title2, hdr=hdr)
